@@ -191,6 +191,7 @@ func (p *Prog) Reachable(roots []*ssa.Function, cut func(caller, callee *ssa.Fun
 			if g == nil {
 				return
 			}
+			g = canonGeneric(g)
 			if _, ok := r.Pred[g]; ok {
 				return
 			}
@@ -836,4 +837,20 @@ func unspill(r ssa.Value, b *ssa.BasicBlock) ssa.Value {
 		return last
 	}
 	return r
+}
+
+
+// canonGeneric maps an "instantiation" whose type arguments are the generic's own type parameters (the form in which
+// generic bodies call sibling generic methods) back to the generic origin, which is the function we analyse.
+func canonGeneric(g *ssa.Function) *ssa.Function {
+	o := g.Origin()
+	if o == nil {
+		return g
+	}
+	for _, ta := range g.TypeArgs() {
+		if _, ok := types.Unalias(ta).(*types.TypeParam); !ok {
+			return g
+		}
+	}
+	return o
 }
